@@ -439,24 +439,29 @@ class FST:
         fst_star = FST()
         state_renaming = FSTStateRemaining()
         state_renaming.add_states(list(self.states), 0)
-        self._add_extremity_states_to(fst_star, state_renaming, 0)
         self._add_transitions_to(fst_star, state_renaming, 0)
+        # A fresh state, both start and final, links the iterations
+        new_state = "star"
+        counter = 0
+        while new_state in self.states:
+            new_state = "star" + str(counter)
+            counter += 1
+        fst_star.add_start_state(new_state)
+        fst_star.add_final_state(new_state)
+        for start_state in self.start_states:
+            fst_star.add_transition(
+                new_state,
+                "epsilon",
+                state_renaming.get_name(start_state, 0),
+                []
+            )
         for final_state in self.final_states:
-            for start_state in self.start_states:
-                fst_star.add_transition(
-                    state_renaming.get_name(final_state, 0),
-                    "epsilon",
-                    state_renaming.get_name(start_state, 0),
-                    []
-                )
-        for final_state in self.start_states:
-            for start_state in self.final_states:
-                fst_star.add_transition(
-                    state_renaming.get_name(final_state, 0),
-                    "epsilon",
-                    state_renaming.get_name(start_state, 0),
-                    []
-                )
+            fst_star.add_transition(
+                state_renaming.get_name(final_state, 0),
+                "epsilon",
+                new_state,
+                []
+            )
         return fst_star
 
     def to_networkx(self) -> nx.MultiDiGraph:
